@@ -1591,7 +1591,7 @@ Qed.
 
 Lemma yacc_parse_total : yacc_parse_total_stmt.
 Proof.
-  intros fixed fixed_aspan fixed_pspan kind src. unfold run_case, yacc_new_gen.
+  intros fixed fixed_aspan fixed_pspan fixed_precused kind src. unfold run_case, yacc_new_gen.
   destruct (header_present src); [eexists; reflexivity|].
   assert (Hfuel : byte_len src < fuel_for src) by (unfold fuel_for; lia).
   destruct (parse_total (fun _ => True) fixed fixed_aspan fixed_pspan kind src (fuel_for src) Hfuel I
@@ -1657,7 +1657,7 @@ Qed.
 
 Lemma action_span_fixed : action_span_fixed_stmt.
 Proof.
-  intros fixed fixed_pspan kind src a errs w Hrun. unfold run_case, yacc_new_gen in Hrun.
+  intros fixed fixed_pspan fixed_precused kind src a errs w Hrun. unfold run_case, yacc_new_gen in Hrun.
   destruct (header_present src); [discriminate Hrun|].
   assert (Hfuel : byte_len src < fuel_for src) by (unfold fuel_for; lia).
   destruct (parse_total (action_ok src) fixed true fixed_pspan kind src (fuel_for src) Hfuel I
@@ -1671,15 +1671,15 @@ Qed.
 (* the code as it is, on "%%\nA:{ x};": the action "x" gets the span (6,7), which selects " " *)
 Definition refuted_src : str := [37; 37; 10; 65; 58; 123; 32; 120; 125; 59]%N.
 
-Lemma action_span_refuted_run : forall fp, exists a e w p,
-  run_case false false fp KOriginal refuted_src = Done (TResult a e w) /\
+Lemma action_span_refuted_run : forall fp fu, exists a e w p,
+  run_case false false fp fu KOriginal refuted_src = Done (TResult a e w) /\
   a_prods a = [p] /\ p_action p = Some ([120%N], (6, 7)).
-Proof. intros [|]; vm_compute; do 4 eexists; (split; [reflexivity | split; reflexivity]). Qed.
+Proof. intros [|] [|]; vm_compute; do 4 eexists; (split; [reflexivity | split; reflexivity]). Qed.
 
 Lemma action_span_refuted : action_span_refuted_stmt.
 Proof.
-  exists false, KOriginal, refuted_src. intros fp.
-  destruct (action_span_refuted_run fp) as [a [e [w [p [H1 [H2 H3]]]]]].
+  exists false, KOriginal, refuted_src. intros fp fu.
+  destruct (action_span_refuted_run fp fu) as [a [e [w [p [H1 [H2 H3]]]]]].
   rewrite H1, H2. intros H. apply Forall_inv in H. rewrite H3 in H.
   vm_compute in H. discriminate H.
 Qed.
